@@ -385,9 +385,14 @@ class Shadow:
         self.rows = 0
 
 
+LEN_SCALE = 1  # set per case by mon.worker: the thorough tier stretches the mixed-call part of every tenth history
+
+
 def gen_ops(rs, cfg, sh, n_ops, kinds, sizes=(1, 2, 3, 5, 8), train_rows=(1, 9), nf_choices=None, rkind=None):
     """a seeded history of public calls, all inside the documented domain, updating the shadow `sh`"""
     ops = []
+    if n_ops > 2 and len(kinds) > 2:
+        n_ops *= LEN_SCALE
     ctx = is_ctx(cfg)
     guard = 0
     while len(ops) < n_ops and guard < 10 * n_ops + 20:
